@@ -1479,7 +1479,12 @@ func (env *Environment) scheduleAutoStopTransition() (scheduled bool, expected t
 							log.WithField("partition", env.id).
 								WithField("run", env.currentRunNumber).
 								Errorf("Forced transition to ERROR failed: %s", err.Error())
-							env.setState("ERROR")
+							// DONE is terminal: a timer that outlived the teardown must not revive the environment
+							env.Mu.Lock()
+							if env.Sm.Current() != "DONE" {
+								env.Sm.SetState("ERROR")
+							}
+							env.Mu.Unlock()
 						}
 						return
 					}
